@@ -19,6 +19,7 @@ from ..models import ringref
 from ..domains import libs
 from .. import VERIF, REPO
 
+TWO_HASH_SEEDS = ('quick', 'thorough')   # tiers in which the space is walked under a second PYTHONHASHSEED
 LEVEL = 'exploration'
 WAYS = ['name', 'path', 'relocated']
 BOUND = {t: '9 libraries x 3 ways of locating them (27 fresh processes) x every '
